@@ -26,7 +26,7 @@ HASHERS = ["HasherV2", "HasherHybrid", "FileHasher", "FileHasher.hybrid"]
 
 def BOUNDS(tier):
     q = tier == "quick"
-    return {"single file": "size in [1, K*P], K=%d, P in %s" % (5 if q else 9, "{16,32,64} KiB" if q else "{16,32,64,128} KiB"),
+    return {"single file": "size in [1, K*P], K=%d (13 at P=16 KiB), P in %s" % (5 if q else 9, "{16,32,64} KiB" if q else "{16,32,64,128} KiB"),
             "trees": "<= 3 files, each size in [0, 2P]" + ("" if q else "; 4-file shape at P=16 KiB"),
             "creators": "TorrentAssembler v2 + hybrid, TorrentFileV2, TorrentFileHybrid",
             "outside": "piece lengths above the listed ones; more pieces per file than K; other names/shapes"}
@@ -39,13 +39,14 @@ def jobs(tier):
     Ps = [16384, 32768, 65536] + ([] if q else [131072])
     for h in HASHERS:
         for P in Ps:
-            out.append(("hasher.%s.P%d" % (h, P), "job_hasher", dict(hasher=h, P=P, K=K if P < 131072 else 5)))
+            out.append(("hasher.%s.P%d" % (h, P), "job_hasher", dict(hasher=h, P=P, K=(K if P > 16384 else 13) if P < 131072 else 5)))
     for h in HASHERS:
         out.append(("hasher-seq.%s" % h, "job_hasher_seq", dict(hasher=h, P1=16384, P2=32768, K=5)))
         out.append(("hasher-seq-down.%s" % h, "job_hasher_seq", dict(hasher=h, P1=65536, P2=16384, K=4)))
     for which in ("2a", "2c", "3a", "3c"):
         out.append(("tree.%s.single.P32768" % which, "job_tree", dict(which=which, shape="single", P=32768, K=4, order="reversed")))
         out.append(("tree.%s.nested3.P16384" % which, "job_tree", dict(which=which, shape="nested3", P=16384, K=2, order="symbolic" if which == "2a" else "reversed")))
+        out.append(("tree.%s.hidden2.P16384" % which, "job_tree", dict(which=which, shape="hidden2", P=16384, K=2, order="reversed")))
         out.append(("tree.%s.dir1.P16384" % which, "job_tree", dict(which=which, shape="dir1", P=16384, K=3, order="reversed")))
         out.append(("tree.%s.flat2.P32768" % which, "job_tree", dict(which=which, shape="flat2", P=32768, K=2, order="reversed")))
         if not q:
